@@ -126,3 +126,128 @@ pub fn run_scripted(text: &str, file: Option<&str>, names: &[String], queue: &st
     }
 }
 
+
+// ---------------------------------------------------------------- dynamic commands (`runm`)
+// mirror of lean/DuckModel/DynScripted.lean: the command table can be changed by commands while
+// a script runs, commands keep private state in Context.state, one Context goes from run to run
+
+pub struct DynShared {
+    pub queue: VecDeque<CommandResult>,
+    pub log: Vec<(String, Vec<String>, usize)>,
+}
+
+#[derive(Clone)]
+pub struct Dyn {
+    pub name: String,
+    pub aliases: Vec<String>,
+    pub shared: Rc<RefCell<DynShared>>,
+}
+
+const DYN_STATE_KEY: &str = "c03";
+
+impl Command for Dyn {
+    fn name(&self) -> String {
+        self.name.clone()
+    }
+    fn aliases(&self) -> Vec<String> {
+        self.aliases.clone()
+    }
+    fn clone_and_box(&self) -> Box<dyn Command> {
+        Box::new(self.clone())
+    }
+    fn run(&self, ctx: CommandInvocationContext) -> CommandResult {
+        use duckscript::types::runtime::StateValue;
+        let a = ctx.arguments.clone();
+        self.shared.borrow_mut().log.push((self.name.clone(), a.clone(), ctx.line));
+        let b = |x: bool| CommandResult::Continue(Some(if x { "true".to_string() } else { "false".to_string() }));
+        match self.name.as_str() {
+            "reg" => {
+                if a.is_empty() {
+                    return CommandResult::Continue(None);
+                }
+                let c = Dyn { name: a[0].clone(), aliases: a[1..].to_vec(), shared: self.shared.clone() };
+                b(ctx.commands.set(Box::new(c)).is_ok())
+            }
+            "unreg" => {
+                if a.is_empty() {
+                    return CommandResult::Continue(None);
+                }
+                b(ctx.commands.remove(&a[0]))
+            }
+            "stput" => {
+                if a.len() >= 2 {
+                    if !matches!(ctx.state.get(DYN_STATE_KEY), Some(StateValue::SubState(_))) {
+                        ctx.state.insert(DYN_STATE_KEY.to_string(), StateValue::SubState(std::collections::HashMap::new()));
+                    }
+                    if let Some(StateValue::SubState(m)) = ctx.state.get_mut(DYN_STATE_KEY) {
+                        m.insert(a[0].clone(), StateValue::String(a[1].clone()));
+                    }
+                }
+                CommandResult::Continue(None)
+            }
+            "stget" => {
+                if a.is_empty() {
+                    return CommandResult::Continue(None);
+                }
+                match ctx.state.get(DYN_STATE_KEY) {
+                    Some(StateValue::SubState(m)) => match m.get(&a[0]) {
+                        Some(StateValue::String(v)) => CommandResult::Continue(Some(v.clone())),
+                        _ => CommandResult::Continue(None),
+                    },
+                    _ => CommandResult::Continue(None),
+                }
+            }
+            _ => match self.shared.borrow_mut().queue.pop_front() {
+                Some(r) => r,
+                None => CommandResult::Exit(None),
+            },
+        }
+    }
+}
+
+/// `specs` = (name, aliases) registered in order before the first run (refusals ignored);
+/// the scripts run one after the other on the Context the previous run returned
+pub fn run_dyn(specs: &[(String, Vec<String>)], queue: &str, vars: &[(String, String)], texts: &[String]) -> String {
+    use duckscript::types::runtime::StateValue;
+    let q: VecDeque<CommandResult> = if queue == "-" || queue.is_empty() { VecDeque::new() } else { queue.split(',').map(|t| dec_result(t).unwrap()).collect() };
+    let shared = Rc::new(RefCell::new(DynShared { queue: q, log: vec![] }));
+    let mut context = Context::new();
+    for (n, al) in specs {
+        let _ = context.commands.set(Box::new(Dyn { name: n.clone(), aliases: al.clone(), shared: shared.clone() }));
+    }
+    for (k, v) in vars {
+        context.variables.insert(k.clone(), v.clone());
+    }
+    let mut outs: Vec<String> = vec![];
+    let mut last: Option<Context> = Some(context);
+    for text in texts {
+        let ctx = last.take().unwrap();
+        let env = Env::new(Some(Box::new(Sink)), Some(Box::new(Sink)), None);
+        match duckscript::runner::run_script(text, ctx, Some(env)) {
+            Ok(c) => {
+                outs.push(format!("ok VARS {}", enc_vars(&c.variables)));
+                last = Some(c);
+            }
+            Err(ScriptError::Runtime(msg, meta)) => {
+                let m = if msg.starts_with("crash#") { enc_str(&msg) } else { "runner-msg".to_string() };
+                outs.push(format!("fail {} {}", m, enc_meta(&meta.unwrap_or_default())));
+                break;
+            }
+            Err(e) => {
+                outs.push(format!("PARSEERR {}", enc_script_error(&e)));
+                break;
+            }
+        }
+    }
+    let log = shared.borrow().log.iter().map(|(n, a, l)| format!("{}@{}{}", enc_str(n), l, enc_list(a))).collect::<Vec<_>>().join(";");
+    let mut line = format!("{} | LOG {}", outs.join(" || "), log);
+    if let Some(c) = last {
+        let mut e: Vec<String> = match c.state.get(DYN_STATE_KEY) {
+            Some(StateValue::SubState(m)) => m.iter().map(|(k, v)| format!("{}={}", enc_str(k), match v { StateValue::String(s) => enc_str(s), _ => "?".to_string() })).collect(),
+            _ => vec![],
+        };
+        e.sort();
+        line.push_str(&format!(" | STATE {} | NAMES {}", if e.is_empty() { "-".to_string() } else { e.join(",") }, enc_list(&c.commands.get_all_command_names())));
+    }
+    line
+}
